@@ -171,6 +171,14 @@ void part_sequence(Tape& t, Ctx& ctx) {
     VCHECK(ctx, res.size() == v.size(), "batch", "batch evaluate returned " << res.size() << " values for " << v.size() << " times");
     for (size_t i = 0; i < v.size(); ++i)
       VCHECK(ctx, vec_same(res[i], pp.evaluate(v[i], k)), "batch", "batch evaluate differs from pointwise at sample " << i << " t=" << hexd(v[i]) << " k=" << k);
+    // the overloads that take the derivative as an enumerator (orders 0..6, also above the polynomial degree)
+    int k2 = t.range(0, 6);
+    auto res2 = pp.evaluate(v, static_cast<Deriv>(k2));
+    VCHECK(ctx, res2.size() == v.size(), "batch", "batch evaluate (enumerator overload) returned " << res2.size() << " values for " << v.size() << " times");
+    for (size_t i = 0; i < v.size(); ++i)
+      VCHECK(ctx, vec_same(res2[i], pp.evaluate(v[i], k2)) && vec_same(res2[i], pp.evaluate(v[i], static_cast<Deriv>(k2))), "batch",
+             "batch evaluate through the enumerator overload differs from pointwise at sample " << i << " t=" << hexd(v[i]) << " order " << k2 << " (" << ncoef << " coefficients)");
+    if (k2 >= ncoef) ctx.label("batch:enumerator-order-above-degree");
   }
 }
 
@@ -270,6 +278,22 @@ void length_checks(Tape& t, Ctx& ctx, const PP& pp, const char* what) {
   if ((T1 - T0) / 0.01 <= 20000) {
     VCHECK(ctx, same_val(pp.getTrajectoryLength(), pp.getTrajectoryLength(T0, T1, 0.01)) && same_val(pp.getTrajectoryLength(0.02), pp.getTrajectoryLength(T0, T1, 0.02)),
            "length-overload", what << ": getTrajectoryLength default-argument overloads disagree with the explicit range");
+    // the length is a pure function of the trajectory's CURRENT data: an object that reported the length of other data before
+    // (same step) and was then updated in place reports the same as this one
+    if (t.flag()) {
+      typename PP::MatrixType C2 = C * (t.flag() ? 2.0 : -0.5);
+      PP hp(bk, C2, nc);
+      double hs = t.flag() ? 0.01 : 0.02;
+      double before = hs == 0.01 ? hp.getTrajectoryLength() : hp.getTrajectoryLength(hs);
+      (void)before;
+      if (t.flag()) (void)hp.getTrajectoryLength(T0, T1, hs);
+      hp.update(bk, C, nc);
+      double after = hs == 0.01 ? hp.getTrajectoryLength() : hp.getTrajectoryLength(hs);
+      double ref = hs == 0.01 ? pp.getTrajectoryLength() : pp.getTrajectoryLength(hs);
+      VCHECK(ctx, same_val(after, ref) && same_val(hp.getTrajectoryLength(T0, T1, hs), pp.getTrajectoryLength(T0, T1, hs)), "length-after-update",
+             what << ": getTrajectoryLength(" << g17(hs) << ") = " << g17(after) << " on an object that was queried, then updated in place to these data; a fresh object gives " << g17(ref));
+      ctx.label("length:queried-then-updated");
+    }
   }
 }
 
